@@ -22,6 +22,7 @@ import errno
 import io
 import os
 import posixpath
+import shutil
 import tempfile
 
 import torch
@@ -30,6 +31,7 @@ from .core import SimCrash, HarnessError
 
 ROOT = "/simfs"
 TEXT_BUFFER = 8192  # CPython's text/buffered layer size
+FAKE_FD_BASE = 1 << 20
 
 
 def under_root(p):
@@ -116,10 +118,54 @@ class SimFile:
         return len(self.fs.files.get(self.name, b"")) + len(self.buf)
 
     def fileno(self):
-        raise io.UnsupportedOperation("fileno")
+        # a fake descriptor, understood by the patched os.fsync / os.fdatasync only
+        return self.fs.fake_fd(self)
 
     def isatty(self):
         return False
+
+    def __enter__(self):
+        return self
+
+    def __exit__(self, *exc):
+        self.close()
+        return False
+
+
+class _DirEntry:
+    def __init__(self, fs, parent, name):
+        self._fs = fs
+        self.name = name
+        self.path = parent + "/" + name
+
+    def is_file(self, follow_symlinks=True):
+        return self._fs.isfile(self.path)
+
+    def is_dir(self, follow_symlinks=True):
+        return self._fs.isdir(self.path)
+
+    def is_symlink(self):
+        return False
+
+    def stat(self, follow_symlinks=True):
+        return self._fs.stat(self.path)
+
+    def __fspath__(self):
+        return self.path
+
+
+class _ScanDir:
+    def __init__(self, entries):
+        self._it = iter(entries)
+
+    def __iter__(self):
+        return self
+
+    def __next__(self):
+        return next(self._it)
+
+    def close(self):
+        self._it = iter(())
 
     def __enter__(self):
         return self
@@ -144,6 +190,58 @@ class SimFS:
         self.tmp_counter = 0
         self.listing_perm = None  # callable(list)->list, to permute listdir results
         self.total_ops = 0
+        self.fds = {}  # fake descriptor -> SimFile
+        self.bypass = []  # un-modelled calls that reached a path under ROOT (-> harness error)
+        self.syncs = 0
+
+    def _unmodelled(self, msg):
+        """Something SimFS cannot model was asked of it: remember it (the run then ends as a harness
+        error, exit 2, whatever the code under test does with the exception) and return the exception."""
+        self.bypass.append(msg)
+        return HarnessError(msg)
+
+    def fake_fd(self, f):
+        for fd, g in self.fds.items():
+            if g is f:
+                return fd
+        fd = FAKE_FD_BASE + len(self.fds)
+        self.fds[fd] = f
+        return fd
+
+    def fsync(self, fd):
+        """A no-op in the process-crash model (completed writes are already durable), but the
+        descriptor must be one of ours and still open."""
+        f = self.fds.get(fd)
+        if f is None or f.closed:
+            raise OSError(errno.EBADF, "Bad file descriptor")
+        if f.buf:
+            # os.fsync on a Python file object's descriptor does not flush the user-space buffer
+            pass
+        self.syncs += 1
+
+    def stat(self, path):
+        path = norm(path)
+        import stat as _stat
+
+        if path in self.files:
+            return os.stat_result((_stat.S_IFREG | 0o644, 0, 0, 1, 0, 0, len(self.files[path]), 0, 0, 0))
+        if path in self.dirs:
+            return os.stat_result((_stat.S_IFDIR | 0o755, 0, 0, 2, 0, 0, 4096, 0, 0, 0))
+        raise FileNotFoundError(errno.ENOENT, "No such file or directory", path)
+
+    def rmdir(self, path):
+        path = norm(path)
+        if path not in self.dirs:
+            if path in self.files:
+                raise NotADirectoryError(errno.ENOTDIR, "Not a directory", path)
+            raise FileNotFoundError(errno.ENOENT, "No such file or directory", path)
+        if self.listdir(path):
+            raise OSError(errno.ENOTEMPTY, "Directory not empty", path)
+        self._mutate("rmdir", path, lambda: self.dirs.discard(path))
+
+    def scandir(self, path):
+        path = norm(path)
+        return _ScanDir([_DirEntry(self, path, n) for n in self.listdir(path)])
 
     # --- process lifecycle -----------------------------------------------------------
     def start_process(self, fault=None):
@@ -237,7 +335,7 @@ class SimFS:
             missing.append(p)
             p = posixpath.dirname(p)
             if not under_root(p):
-                raise HarnessError(f"makedirs escaped {ROOT}: {path}")
+                raise self._unmodelled(f"makedirs escaped {ROOT}: {path}")
         for p in reversed(missing):
             self._mutate("mkdir", p, lambda p=p: self.dirs.add(p))
 
@@ -276,9 +374,9 @@ class SimFS:
     def replace(self, src, dst):
         src, dst = norm(src), norm(dst)
         if not (under_root(src) and under_root(dst)):
-            raise HarnessError(f"replace across the seam: {src} -> {dst}")
+            raise self._unmodelled(f"replace across the seam: {src} -> {dst}")
         if src in self.dirs:
-            raise HarnessError("directory rename not modelled")
+            raise self._unmodelled("directory rename not modelled")
         if src not in self.files:
             raise FileNotFoundError(errno.ENOENT, "No such file or directory", src)
         if dst in self.dirs:
@@ -296,7 +394,7 @@ class SimFS:
         plus = "+" in mode
         kind = mode.replace("b", "").replace("t", "").replace("+", "")
         if plus:
-            raise HarnessError(f"open mode {mode!r} not modelled")
+            raise self._unmodelled(f"open mode {mode!r} not modelled")
         if kind == "r":
             if path in self.dirs:
                 raise IsADirectoryError(errno.EISDIR, "Is a directory", path)
@@ -308,7 +406,7 @@ class SimFS:
                 return raw
             return io.TextIOWrapper(raw, encoding=encoding or "utf-8", errors=errors, newline=newline)
         if kind not in ("w", "a", "x"):
-            raise HarnessError(f"open mode {mode!r} not modelled")
+            raise self._unmodelled(f"open mode {mode!r} not modelled")
         if path in self.dirs:
             raise IsADirectoryError(errno.EISDIR, "Is a directory", path)
         self._parent_must_exist(path)
@@ -319,7 +417,7 @@ class SimFS:
         elif kind == "w" and len(self.files[path]):
             self._mutate("truncate", path, lambda: self.files.__setitem__(path, bytearray()))
         if not binary and newline not in (None, "", "\n"):
-            raise HarnessError("newline translation on write not modelled")
+            raise self._unmodelled("newline translation on write not modelled")
         bufsize = self.bufsize if binary else TEXT_BUFFER
         if buffering == 0 and binary:
             bufsize = 1
@@ -329,9 +427,9 @@ class SimFS:
 
     def named_temporary_file(self, mode="w+b", dir=None, prefix=None, suffix=None, delete=True, **kw):
         if delete:
-            raise HarnessError("NamedTemporaryFile(delete=True) not modelled in SimFS")
+            raise self._unmodelled("NamedTemporaryFile(delete=True) not modelled in SimFS")
         if dir is None or not under_root(dir):
-            raise HarnessError(f"temp file outside {ROOT}: {dir}")
+            raise self._unmodelled(f"temp file outside {ROOT}: {dir}")
         dir = norm(dir)
         if dir not in self.dirs:
             raise FileNotFoundError(errno.ENOENT, "No such file or directory", dir)
@@ -402,10 +500,149 @@ def patched(fs):
     patch(os.path, "isfile", route1(fs.isfile))
     patch(os.path, "isdir", route1(fs.isdir))
     patch(os.path, "getsize", route1(fs.getsize))
+    def make_fsync(real):
+        def wrapper(fd):
+            if isinstance(fd, int) and fd >= FAKE_FD_BASE:
+                return fs.fsync(fd)
+            if hasattr(fd, "fileno") and isinstance(fd, SimFile):
+                return fs.fsync(fd.fileno())
+            return real(fd)
+
+        return wrapper
+
+    def make_stat(real):
+        def wrapper(path, *a, **k):
+            if under_root(path):
+                return fs.stat(path)
+            return real(path, *a, **k)
+
+        return wrapper
+
+    def guard(label):
+        # an un-modelled call that reaches a path under ROOT: remember it, so that the run is
+        # reported as a harness error (exit 2) and never as a violation
+        def make(real):
+            def wrapper(*a, **k):
+                args = list(a) + list(k.values())
+                if any(under_root(x) for x in args if isinstance(x, (str, os.PathLike))):
+                    raise fs._unmodelled(f"{label} on a path under {ROOT} is not modelled by SimFS")
+                return real(*a, **k)
+
+            wrapper.__name__ = getattr(real, "__name__", "wrapped")
+            return wrapper
+
+        return make
+
     patch(tempfile, "NamedTemporaryFile", make_ntf)
     patch(torch, "save", make_save)
+    def make_fstat(real):
+        def wrapper(fd):
+            if isinstance(fd, int) and fd >= FAKE_FD_BASE:
+                f = fs.fds.get(fd)
+                if f is None or f.closed:
+                    raise OSError(errno.EBADF, "Bad file descriptor")
+                return fs.stat(f.name)
+            return real(fd)
+
+        return wrapper
+
+    def make_mkstemp(real):
+        def wrapper(suffix=None, prefix=None, dir=None, text=False):
+            if dir is not None and under_root(dir):
+                f = fs.named_temporary_file("w" if text else "wb", dir=dir, prefix=prefix, suffix=suffix, delete=False)
+                f.bufsize = 1  # a bare descriptor has no user-space buffer until somebody wraps it
+                return f.fileno(), f.name
+            return real(suffix, prefix, dir, text)
+
+        return wrapper
+
+    def make_fdopen(real):
+        def wrapper(fd, mode="r", buffering=-1, *a, **k):
+            if isinstance(fd, int) and fd >= FAKE_FD_BASE:
+                f = fs.fds.get(fd)
+                if f is None or f.closed:
+                    raise OSError(errno.EBADF, "Bad file descriptor")
+                if "r" in mode or "+" in mode:
+                    raise fs._unmodelled(f"os.fdopen mode {mode!r} on a SimFS descriptor not modelled")
+                f.binary = "b" in mode
+                f.mode = mode
+                f.bufsize = 1 if (buffering == 0 and f.binary) else (fs.bufsize if f.binary else TEXT_BUFFER)
+                return f
+            return real(fd, mode, buffering, *a, **k)
+
+        return wrapper
+
+    def make_close(real):
+        def wrapper(fd):
+            if isinstance(fd, int) and fd >= FAKE_FD_BASE:
+                f = fs.fds.get(fd)
+                if f is None or f.closed:
+                    raise OSError(errno.EBADF, "Bad file descriptor")
+                return f.close()
+            return real(fd)
+
+        return wrapper
+
+    def make_write(real):
+        def wrapper(fd, data):
+            if isinstance(fd, int) and fd >= FAKE_FD_BASE:
+                f = fs.fds.get(fd)
+                if f is None or f.closed:
+                    raise OSError(errno.EBADF, "Bad file descriptor")
+                was = f.binary
+                f.binary = True
+                try:
+                    f.write(data)
+                    f.flush()
+                finally:
+                    f.binary = was
+                return len(data)
+            return real(fd, data)
+
+        return wrapper
+
+    def make_noop(real):
+        # metadata-only calls: permission bits and times are not part of the SimFS model
+        def wrapper(*a, **k):
+            args = list(a) + list(k.values())
+            if any(under_root(x) for x in args if isinstance(x, (str, os.PathLike))):
+                for x in args:
+                    if isinstance(x, (str, os.PathLike)) and under_root(x) and not fs.exists(x):
+                        raise FileNotFoundError(errno.ENOENT, "No such file or directory", os.fspath(x))
+                return None
+            return real(*a, **k)
+
+        return wrapper
+
+    patch(os.path, "realpath", route1(lambda p, **k: norm(p)))  # no symbolic links in SimFS
+    patch(os, "chmod", make_noop)
+    patch(os, "utime", make_noop)
+    patch(shutil, "copymode", make_noop)
+    patch(shutil, "copystat", make_noop)
+    patch(tempfile, "mkstemp", make_mkstemp)
+    patch(os, "fdopen", make_fdopen)
+    patch(os, "close", make_close)
+    patch(os, "write", make_write)
+    patch(os, "fstat", make_fstat)
+    patch(os, "fsync", make_fsync)
+    patch(os, "fdatasync", make_fsync)
+    patch(os, "stat", make_stat)
+    patch(os, "lstat", make_stat)
+    patch(os, "rmdir", route1(fs.rmdir))
+    patch(os, "scandir", route1(fs.scandir))
+    patch(os.path, "lexists", route1(fs.exists))
+    patch(os.path, "islink", route1(lambda p: False))
+    for obj, names in ((os, ("open", "link", "symlink", "truncate", "removedirs", "renames", "walk", "mkfifo", "readlink")),
+                       (os.path, ("getmtime", "getctime", "getatime", "samefile")),
+                       (shutil, ("copyfile", "copy", "copy2", "copytree", "rmtree", "move")),
+                       (tempfile, ("mkdtemp", "TemporaryDirectory", "TemporaryFile", "SpooledTemporaryFile"))):
+        for name in names:
+            patch(obj, name, guard(f"{obj.__name__}.{name}"))
     try:
         yield fs
     finally:
         for obj, name, real in reversed(saved):
             setattr(obj, name, real)
+        if fs.bypass:
+            # overrides whatever verdict or exception is on its way out: it cannot be trusted
+            raise HarnessError(f"SimFS was asked for something it does not model: {sorted(set(fs.bypass))}")
